@@ -97,15 +97,16 @@ example : (serializeSet [⟨false, "", "v"⟩]).bind (fun o => (visitMap false (
 /-- Full-strength statement at the level of the JSON *text* the C caller passes and receives:
     what `askar_entry_list_get_tags` writes is accepted by `askar_session_update` and denotes the
     same tags. -/
-def tagset_text_roundtrip : Prop :=
+def tagset_text_roundtrip (borrowedKeys : Bool) : Prop :=
   ∀ tags : List Tag, tags ≠ [] →
     (∀ t ∈ tags, t.plain = false → match t.name.toList with | [] => False | c :: _ => c ≠ '~') →
-    ∃ text, encodeTags tags = some (some text) ∧ ∃ out, decodeTags keysBorrowedOnly text = .ok out ∧ out.Perm tags
+    ∃ text, encodeTags tags = some (some text) ∧ ∃ out, decodeTags borrowedKeys text = .ok out ∧ out.Perm tags
 
-/-- … which is false on the current code (defect D10): a tag name containing a quote is written
+/-- … which is false for the pinned tree's deserialiser (`borrowedKeys = true`, defect D10; whether the
+    current source still has it is read from the source: `keysBorrowedOnly`): a tag name containing a quote is written
     with an escape by the serialiser, and the deserialiser, which insists on borrowed `&str` keys,
     rejects every key spelled with an escape. -/
-theorem tagset_text_roundtrip_refuted : ¬ tagset_text_roundtrip := by
+theorem tagset_text_roundtrip_refuted_for_borrowed_keys : ¬ tagset_text_roundtrip true := by
   intro h
   have hl : ("a\"b" : String).toList = ['a', '"', 'b'] := by decide +kernel
   obtain ⟨text, h1, out, h2, _⟩ := h [⟨false, "a\"b", "v"⟩] (by simp)
@@ -114,7 +115,7 @@ theorem tagset_text_roundtrip_refuted : ¬ tagset_text_roundtrip := by
   rw [e1] at h1
   injection h1 with h1; injection h1 with h1
   subst h1
-  have e2 : (decodeTags keysBorrowedOnly "{\"a\\\"b\":\"v\"}").toOption = none := by decide +kernel
+  have e2 : (decodeTags true "{\"a\\\"b\":\"v\"}").toOption = none := by decide +kernel
   rw [h2] at e2
   simp [Except.toOption] at e2
 
